@@ -240,7 +240,10 @@ def install(ctx):
 
 
 def gen_case(rng, tier, ctx, i):
-    return {"poly": polygen.gen_poly(rng), "via": rng.choice(["method", "alias", "class", "direct"])}
+    case = {"poly": polygen.gen_poly(rng), "via": rng.choice(["method", "alias", "class", "direct"])}
+    if rng.random() < 0.12:
+        case["derive"] = rng.getrandbits(32)
+    return case
 
 
 def receiver_unchanged(ctx, case, P):
@@ -278,3 +281,12 @@ def _run(case, ctx):
         rc = ctx.call("reducable_rows_and_columns", pnd.ge_polyhedron.reducable_rows_and_columns, P)
         ctx.call("reduce", P.reduce, rows_vector=rc[0])
         ctx.call("reduce", P.reduce, columns_vector=rc[1])
+    receiver_unchanged(ctx, case, P)
+    if case.get("derive") is not None:
+        # a polyhedron derived from the first one by ordinary array operations (same rows in the same order, other entries)
+        import random
+        how, Q = polygen.derive(P, random.Random(case["derive"]), hows=("scale", "copy-edit", "add", "negate-row"))
+        if type(Q) is type(P):
+            ctx.count("count:derived-polyhedron:" + how)
+            rc = ctx.call("reducable_rows_and_columns", Q.reducable_rows_and_columns)
+            ctx.call("reduce", Q.reduce, *rc)
